@@ -16,7 +16,7 @@ From Coq Require Import Init.Byte.
 Import ListNotations.
 From Coq Require Import Permutation.
 From Onet Require Import Net.Frame Net.Marshal Net.WireProofs Corr.C03 Net.WireCheck.
-From Onet Require Import Net.SendConc Net.SendConcProofs.
+From Onet Require Import Net.SendConc Net.SendConcProofs Net.LocalPipe Net.LocalPipeProofs.
 Local Open Scope N_scope.
 
 (* -- framing: any segmentation, order, no loss, no duplication --------------- *)
@@ -423,6 +423,34 @@ Example c03_concurrent_senders_example :
               ([(Witness.id0, [x42]); (Witness.id0, [x41])], FinEnd false).
 Proof. exact mutex_same_schedule_blocked. Qed.
 Print Assumptions c03_concurrent_senders_example.
+
+(* -- the bounded in-memory connection (Net/LocalPipe.v): two queues of capacity
+   [cap] and a pump between them; the sender waits while the first queue is full.
+   Any capacity, any interleaving of sender / pump / receiver: the messages are,
+   in sending order, received ++ outgoing queue ++ incoming queue ++ not yet
+   sent; once everything has drained, exactly the messages sent, in order. *)
+Theorem c03_local_pipe_fifo : forall (A : Type) cap (msgs : list A) acts (s : pst A),
+  prun cap false acts (pinit msgs) = Some s ->
+  p_got s ++ p_out s ++ p_in s ++ p_todo s = msgs /\
+  (p_out s = [] -> p_in s = [] -> p_todo s = [] -> p_got s = msgs).
+Proof. exact pipe_fifo. Qed.
+Print Assumptions c03_local_pipe_fifo.
+
+(* a send that does not wait for room but parks the message in a goroutine of
+   its own (NOT the code as it is) loses the order: capacity 1, three messages *)
+Theorem c03_local_pipe_nonblocking_refuted :
+  exists s, prun 1 true park_witness (pinit [1; 2; 3]%nat) = Some s /\
+            p_todo s = [] /\ p_parked s = [] /\ p_in s = [] /\ p_out s = [] /\
+            p_got s = [1; 3; 2]%nat.
+Proof. exact pipe_nonblocking_refuted. Qed.
+Print Assumptions c03_local_pipe_nonblocking_refuted.
+
+Example c03_local_pipe_example :
+  prun 1 false park_witness (pinit [1; 2; 3]%nat) = None /\
+  exists s, prun 1 false [PSend; PPump; PSend; PRecv; PPump; PSend; PRecv; PPump; PRecv] (pinit [1; 2; 3]%nat) = Some s /\
+            p_got s = [1; 2; 3]%nat.
+Proof. exact pipe_blocking_example. Qed.
+Print Assumptions c03_local_pipe_example.
 
 (* -- bool/Prop reflection of the stream part of the checker: [stream_clauses]
    returns no clause number exactly when [stream_prop] -- a propositional
